@@ -761,6 +761,18 @@ func TestVerifC10(t *testing.T) {
 		run.Input(c, true)
 		h.valid(one(c))
 	})
+	run.Cases("fixed-garbage", len(mfgen.FixedGarbage), func(i int, rng *verifkit.Rand) {
+		c := &mfgen.Case{Kind: "garbage", Class: "fixed", Text: mfgen.JSONSafe(mfgen.FixedGarbage[i]), Raw: mfgen.FixedGarbage[i]}
+		run.Input(c, true)
+		var pr *c10Prep
+		if p := mfgen.Judgeable(c.Raw); p != nil && len(p.Streams) > 0 {
+			pr = h.prepValid(c, nil, 20)
+		} else {
+			pr = h.prepAny(c)
+		}
+		h.exec([]*c10Prep{pr})
+		h.garbage(pr)
+	})
 	n := run.N(20000, 500000)
 	run.Cases("main", n, func(i int, _ *verifkit.Rand) {
 		pr := h.window("main", i, n, func(rng *verifkit.Rand) *c10Prep { return h.prepValid(mfgen.MainCase(rng), rng, 80) })
